@@ -21,6 +21,18 @@ def splitN (s : String) (sep : Char) (n : Nat) : List String :=
 
 def dropSuffixChar (s : String) : String := String.ofList (s.toList.dropLast)
 
+/-- split at `sep` outside square brackets (members of a container may be containers) -/
+def splitTop (s : String) (sep : Char) : List String :=
+  let rec go (cs : List Char) (cur : List Char) (depth : Nat) (acc : List String) : List String :=
+    match cs with
+    | [] => (String.ofList cur.reverse :: acc).reverse
+    | c :: rest =>
+      if c == '[' then go rest (c :: cur) (depth + 1) acc
+      else if c == ']' then go rest (c :: cur) (depth - 1) acc
+      else if c == sep && depth == 0 then go rest [] depth (String.ofList cur.reverse :: acc)
+      else go rest (c :: cur) depth acc
+  go s.toList [] 0 []
+
 /-- message descriptor → `Msg` -/
 partial def parseDesc (d : String) : Option Msg :=
   if d.startsWith "res(" then
@@ -34,10 +46,10 @@ partial def parseDesc (d : String) : Option Msg :=
   else if d.startsWith "news(" then (dropSuffixChar ((d.drop 5).toString)).toInt?.map Msg.news
   else if d.startsWith "badmsg(" then (dropSuffixChar ((d.drop 7).toString)).toNat?.map Msg.badmsg
   else if d == "pong" || d == "ack" || d == "cont()" then some .quiet
-  else if d == "upd" || d == "unk" || d == "trunc" then some .odd
+  else if d == "upd" || d == "unk" || d == "trunc" || d == "gzbad" then some .odd
   else if d.startsWith "cont[" then
     let inner := dropSuffixChar ((d.drop 5).toString)
-    let members := if inner.isEmpty then [] else inner.splitOn "|"
+    let members := if inner.isEmpty then [] else splitTop inner '|'
     (members.mapM fun m =>
       match splitN m ':' 3 with
       | [mid, seq, dd] => do pure ((← mid.toNat?), (← seq.toNat?), (← parseDesc dd))
@@ -49,6 +61,7 @@ inductive Parsed where
   | skip
   | warn
   | plain          -- an unencrypted frame: a key exchange on a resumed session
+  | ackFault (ids : List Nat)  -- injected fault: the write of the acknowledgement naming these ids failed
   | bad (why : String)
 
 def parseEvent (e : String) : Parsed :=
@@ -56,7 +69,13 @@ def parseEvent (e : String) : Parsed :=
   | ["N", _] => .skip
   | ["C"] => .skip
   | ["P", _] => .plain
-  | ["V", cls] => if cls == "reconnect" then .skip else .warn
+  | ["V", cls] => if cls == "reconnect" || cls == "ackfail" then .skip else .warn
+  | ["F", rest] =>
+    match rest.splitOn ":" with
+    | ["k", ids] => match (ids.splitOn "+").mapM (·.toNat?) with
+      | some ids => .ackFault ids
+      | none => .bad e
+    | _ => .bad e
   | ["W", s] => match s.toInt? with | some x => .ev (.store x) | none => .bad e
   | ["D", rest] =>
     match splitN rest ':' 2 with
@@ -96,6 +115,10 @@ def replay (trace : String) : String :=
       | .skip => go s rest (k + 1) warns
       | .warn => go s rest (k + 1) (warns + 1)
       | .plain => s!"stuck@{k}:plaintext-frame-on-resumed-session"
+      -- an environment fault, outside the proved step relation: the client gave these acknowledgements up
+      | .ackFault ids =>
+        if ids.all (fun i => s.owedAck.contains i) then go { s with owedAck := strike s.owedAck ids } rest (k + 1) warns
+        else s!"stuck@{k}:{e}"
       | .bad w => s!"unparsed@{k}:{w}"
       | .ev ev =>
         match step s ev with
